@@ -144,6 +144,9 @@ def run_check(pid, level, module_run, argv):
         tier = argv[argv.index("--tier") + 1]
     seed = int(os.environ.get("VERIF_SEED", "0") or 0)
     ctx = Ctx(pid, tier)
+    global VIOL_DIR
+    if os.path.realpath(ctx.repo) != "/repo":
+        VIOL_DIR = os.path.join(factsmod.CACHE, "scratch-evidence", "violations")
     os.makedirs(VIOL_DIR, exist_ok=True)
     # remove stale replay files of this property
     for f in os.listdir(VIOL_DIR):
@@ -221,8 +224,10 @@ def run_check(pid, level, module_run, argv):
         "wall_s": round(time.time() - ctx.t0, 2),
         "violations": len(new_viol),
     }
-    os.makedirs(EVIDENCE, exist_ok=True)
-    with open(os.path.join(EVIDENCE, pid + ".json"), "w") as f:
+    # evidence of runs against a scratch tree (OWLCHESS_REPO) must not overwrite the evidence about /repo
+    evdir = EVIDENCE if os.path.realpath(ctx.repo) == "/repo" else os.path.join(factsmod.CACHE, "scratch-evidence")
+    os.makedirs(evdir, exist_ok=True)
+    with open(os.path.join(evdir, pid + ".json"), "w") as f:
         json.dump(ev, f, indent=1, sort_keys=False)
         f.write("\n")
 
